@@ -6,3 +6,6 @@ import "unsafe"
 
 // verifOnCopy is a no-op without build tag `verif`.
 func verifOnCopy(a *archetype, src, dst unsafe.Pointer, size uint32) {}
+
+// verifOnTyped is a no-op without build tag `verif`.
+func verifOnTyped(kind string, dst, src unsafe.Pointer, size uint32) {}
